@@ -136,6 +136,9 @@ func telnetQuote(a string) string {
 // telnetOK: the command name must be a bare word that is not taken for another
 // protocol, and the line must not look like an HTTP request line.
 func telnetOK(args []string) bool {
+	if len(args) > 0 && args[0] == "" {
+		return true // written as "" : an empty command name
+	}
 	if len(args) == 0 || !telnetBare(args[0]) || args[0][0] == '*' || args[0][0] == '$' {
 		return false
 	}
@@ -382,21 +385,31 @@ func bigValue(t *rapid.T, maxKB int) string {
 }
 
 type streamOpts struct {
-	maxCmds   int
-	bigKB     int  // 0 = no big values
-	http      bool // allow http/ws elements anywhere (in-package parser only)
-	options   bool // allow a trailing OPTIONS pre-flight
-	binary    bool // allow binary-unsafe bytes in RESP args
-	noFlush   bool // never emit FLUSHDB
-	noTTL     bool // never emit TTL (time dependent reply)
-	protos    []string
-	maxBytes  int // stop adding elements beyond this size (0 = unlimited)
-	noEmpties bool
+	maxCmds      int
+	bigKB        int  // 0 = no big values
+	http         bool // allow http/ws elements anywhere (in-package parser only)
+	options      bool // allow a trailing OPTIONS pre-flight
+	binary       bool // allow binary-unsafe bytes in RESP args
+	noFlush      bool // never emit FLUSHDB
+	noTTL        bool // never emit TTL (time dependent reply)
+	protos       []string
+	maxBytes     int // stop adding elements beyond this size (0 = unlimited)
+	noEmpties    bool
+	noEmptyNames bool
 }
 
 func drawArgs(t *rapid.T, ns gen.Names, o streamOpts) []string {
 	for {
-		switch rapid.IntRange(0, 19).Draw(t, "argkind") {
+		switch rapid.IntRange(0, 21).Draw(t, "argkind") {
+		case 20:
+			// an empty command name (answered like an unknown command), alone or with arguments
+			if o.noEmptyNames {
+				continue
+			}
+			return rapid.SampledFrom([][]string{{""}, {"", "x"}, {"", ""}}).Draw(t, "emptyname")
+		case 21:
+			// empty arguments
+			return rapid.SampledFrom([][]string{{"ECHO", ""}, {"PING", ""}, {"SET", ns.Keys[0], ns.IDs[0], "STRING", ""}, {"GET", ns.Keys[0], ""}, {"GET", "", ""}}).Draw(t, "emptyarg")
 		case 0:
 			return []string{"PING"}
 		case 1:
@@ -487,9 +500,13 @@ func drawElem(t *rapid.T, ns gen.Names, o streamOpts) Elem {
 	case "telnet":
 		// a bare-LF line is only taken when no later CRLF could be mistaken for the
 		// end of an HTTP request line, i.e. never for commands starting with G/P/O
-		c := args[0][0]
-		if c != 'G' && c != 'P' && c != 'O' && rapid.IntRange(0, 5).Draw(t, "lf?") == 0 {
-			e.LFOnly = true
+		if rapid.IntRange(0, 5).Draw(t, "lf?") == 0 {
+			gpo := args[0] != "" && (args[0][0] == 'G' || args[0][0] == 'P' || args[0][0] == 'O')
+			if gpo && ev.KnownActive(inlineLFID) {
+				inlineLFExcluded++ // kept CRLF-terminated
+			} else {
+				e.LFOnly = true
+			}
 		}
 	case "http-get", "http-post", "ws":
 		e.Sep = rapid.SampledFrom([]string{"+", "%20"}).Draw(t, "sep")
@@ -689,6 +706,20 @@ func region(b []byte, offs []int, elems []Elem, p int) (idx int, proto, reg stri
 }
 
 // ---- streams that end in a protocol error -------------------------------------
+
+// inlineLFID: an inline command whose first letter is G, P or O and that ends
+// in a bare LF is held back by the HTTP sniffing until some later CRLF arrives.
+const inlineLFID = "inline-lf-command-unanswered"
+
+// inlineLFExcluded counts bare-LF terminations the generator gave up because of
+// the listed finding; sub-checks move it into their collector.
+var inlineLFExcluded int
+
+func drainExcluded(c *ev.Collector) {
+	for ; inlineLFExcluded > 0; inlineLFExcluded-- {
+		c.Excluded(inlineLFID)
+	}
+}
 
 // emptyHTTPID: a complete HTTP request WITHOUT a command used to make
 // ReadMessages return (nil, errInvalidHTTP), dropping the messages parsed before
